@@ -44,7 +44,7 @@ package httpgrpc
 //@   ensures[C09] valid_gives_one_timeout: result2 == nil && grpc_timeout(h) != "" && parse_ok(timeout_digits(grpc_timeout(h)), 64) && timeout_unit(byteat(grpc_timeout(h), len(grpc_timeout(h)) - 1)) != 0 ==> calls(context.WithTimeout) == 1
 //@   assert_call[C09] context.WithTimeout : saturating: parse_val(timeout_digits(grpc_timeout(h))) >= 0 ==> arg1 == sat_mul(parse_val(timeout_digits(grpc_timeout(h))), timeout_unit(byteat(grpc_timeout(h), len(grpc_timeout(h)) - 1)))
 //@   assert_call[C09] context.WithTimeout : only_for_valid: parse_ok(timeout_digits(grpc_timeout(h)), 64) && timeout_unit(byteat(grpc_timeout(h), len(grpc_timeout(h)) - 1)) != 0
-//@   modifies everything
+//@   modifies nothing
 //
 // headersFromContext: with d = time.Until(deadline) the header is "<M>m" with
 // M = max(1, d / 1ms) (Go truncation); no deadline => no GRPC-Timeout header.
@@ -61,18 +61,39 @@ package httpgrpc
 
 // ---- C07 / C01: framing (io.go) ----
 //
+//@ func writeProtoMessage
+//@   ensures[C01,C07] marshal_error_writes_nothing: lastresult("encoding.Codec.Marshal", 1) != nil ==> result == lastresult("encoding.Codec.Marshal", 1) && !called("binary.Write") && !called("io.Writer.Write")
+//@   assert_call[C01] encoding.Codec.Marshal : the_message_with_the_given_codec: arg0 == codec && arg1 == m
+//@   assert_call[C01,C07] writeSizePreface : size_prefix_first_negative_for_the_final_frame: arg0 == w && !called("io.Writer.Write") && len(lastresult("encoding.Codec.Marshal", 0)) <= 2147483647 && (end ==> arg1 == 0 - len(lastresult("encoding.Codec.Marshal", 0))) && (!end ==> arg1 == len(lastresult("encoding.Codec.Marshal", 0)))
+//@   assert_call[C01] io.Writer.Write : then_exactly_the_marshalled_bytes: arg0 == w && arg1 == lastresult("encoding.Codec.Marshal", 0) && calls(writeSizePreface) == 1 && lastresult(writeSizePreface) == nil
+//@   ensures[C01] one_payload_write_at_most: calls("io.Writer.Write") <= 1
+//@   ensures[C01,C07] success_wrote_prefix_and_payload: result == nil ==> calls(writeSizePreface) == 1 && calls("io.Writer.Write") == 1
+//@   modifies external
+//
+//@ func writeSizePreface
+//@   ensures[C01,C07] calls("binary.Write") == 1
+//@   assert_call[C01,C07] binary.Write : big_endian_int32: arg0 == w && typeis(arg2, "int32") && unbox(arg2, "int32") == sz
+//@   modifies external
+//
+//@ func asTrailerProto
+//@   ensures[C03] result != nil && fresh(result)
+//@   modifies nothing
+//
 //@ func readSizePreface
 //@   ensures[C07,C01] whole_prefix: old(rd_avail(in)) >= 4 ==> result1 == nil && result0 == be32(in, old(rd_pos(in))) && rd_pos(in) == old(rd_pos(in)) + 4
 //@   ensures[C07,C08] clean_end: old(rd_avail(in)) <= 0 ==> result1 == rd_end_err(in) && rd_pos(in) == old(rd_pos(in))
 //@   ensures[C07] partial_prefix_is_error: 0 < old(rd_avail(in)) && old(rd_avail(in)) < 4 ==> result1 == short_read_err(in)
-//@   ensures[C07] never_fabricates: result1 != nil ==> result0 == 0
+//@   ensures[C07,C11] never_fabricates: result1 != nil ==> result0 == 0
 //@   modifies rd_pos(in)
 //
 //@ func readProtoMessage
-//@   alloc_bound[C07] maxMessageSize
-//@   ensures[C07] bad_size_rejected: (sz < 0 || sz > maxMessageSize) ==> result != nil && rd_pos(in) == old(rd_pos(in)) && !called("io.ReadAtLeast") && !called("encoding.Codec.Unmarshal")
-//@   ensures[C07,C01] success_consumes_exactly_the_frame: result == nil ==> 0 <= sz && sz <= maxMessageSize && rd_pos(in) == old(rd_pos(in)) + sz && calls("encoding.Codec.Unmarshal") == 1
-//@   ensures[C07] short_payload_is_error: 0 <= sz && sz <= maxMessageSize && old(rd_avail(in)) < sz ==> result != nil && !called("encoding.Codec.Unmarshal")
+//@   alloc_bound[C07,C11] maxMessageSize
+//@   ensures[C07,C11] bad_size_rejected: (sz < 0 || sz > maxMessageSize) ==> result != nil && rd_pos(in) == old(rd_pos(in))
+//@   ensures[C07] bad_size_reads_nothing: (sz < 0 || sz > maxMessageSize) ==> !called("io.ReadAtLeast") && !called("encoding.Codec.Unmarshal")
+//@   ensures[C07,C01] success_consumes_exactly_the_frame: result == nil ==> 0 <= sz && sz <= maxMessageSize && rd_pos(in) == old(rd_pos(in)) + sz
+//@   ensures[C07,C01] success_decodes_exactly_once: result == nil ==> calls("encoding.Codec.Unmarshal") == 1
+//@   ensures[C07] short_payload_is_error: 0 <= sz && sz <= maxMessageSize && old(rd_avail(in)) < sz ==> result != nil
+//@   ensures[C07] short_payload_is_not_decoded: 0 <= sz && sz <= maxMessageSize && old(rd_avail(in)) < sz ==> !called("encoding.Codec.Unmarshal")
 //@   ensures[C07] short_payload_error_kind: 0 < sz && sz <= maxMessageSize && old(rd_avail(in)) < sz ==> (old(rd_avail(in)) <= 0 ==> result == rd_end_err(in)) && (old(rd_avail(in)) > 0 ==> result == short_read_err(in))
 //@   assert_call[C07,C01] encoding.Codec.Unmarshal : exact_payload: len(arg1) == sz && (forall j int :: 0 <= j && j < sz ==> arg1[j] == rd_at(in, old(rd_pos(in)) + j))
 //@   assert_call[C07,C01] encoding.Codec.Unmarshal : into_destination: arg0 == codec && arg2 == m
@@ -83,12 +104,13 @@ package httpgrpc
 //
 //@ define sbody(s) = s.r.Body
 //@ func (*serverStream).RecvMsg
-//@   ensures[C08] single_request_second_recv: !old(s.respStream) && old(s.recvd) > 0 ==> result == io.EOF && rd_pos(sbody(s)) == old(rd_pos(sbody(s))) && !called("readSizePreface")
+//@   ensures[C08] single_request_second_recv: !old(s.respStream) && old(s.recvd) > 0 ==> result == io.EOF && rd_pos(sbody(s)) == old(rd_pos(sbody(s)))
+//@   ensures[C08] single_request_second_recv_reads_nothing: !old(s.respStream) && old(s.recvd) > 0 ==> !called("readSizePreface")
 //@   ensures[C08,C01] counts_attempts: !(!old(s.respStream) && old(s.recvd) > 0) && old(s.recvd) < 9223372036854775807 ==> s.recvd == old(s.recvd) + 1
 //@   ensures[C07,C01] success_is_one_whole_frame: result == nil ==> old(rd_avail(sbody(s))) >= 4 && be32(sbody(s), old(rd_pos(sbody(s)))) >= 0 && be32(sbody(s), old(rd_pos(sbody(s)))) <= maxMessageSize && old(rd_avail(sbody(s))) >= 4 + be32(sbody(s), old(rd_pos(sbody(s))))
 //@   ensures[C07,C01] success_advances_past_the_frame: result == nil && old(s.respStream) ==> rd_pos(sbody(s)) == old(rd_pos(sbody(s))) + 4 + be32(sbody(s), old(rd_pos(sbody(s))))
 //@   ensures[C07] truncated_frame_is_not_eof: old(s.respStream) && old(rd_avail(sbody(s))) > 0 && (old(rd_avail(sbody(s))) < 4 || old(rd_avail(sbody(s))) < 4 + be32(sbody(s), old(rd_pos(sbody(s))))) ==> result != nil && (rd_end_err(sbody(s)) == io.EOF ==> result != io.EOF)
-//@   ensures[C07] negative_or_huge_size_rejected: old(rd_avail(sbody(s))) >= 4 && (be32(sbody(s), old(rd_pos(sbody(s)))) < 0 || be32(sbody(s), old(rd_pos(sbody(s)))) > maxMessageSize) && !(!old(s.respStream) && old(s.recvd) > 0) ==> result != nil
+//@   ensures[C07,C11] negative_or_huge_size_rejected: old(rd_avail(sbody(s))) >= 4 && (be32(sbody(s), old(rd_pos(sbody(s)))) < 0 || be32(sbody(s), old(rd_pos(sbody(s)))) > maxMessageSize) && !(!old(s.respStream) && old(s.recvd) > 0) ==> result != nil
 //@   ensures[C08] single_request_needs_clean_end: result == nil && !old(s.respStream) ==> rd_end_err(sbody(s)) == io.EOF && rd_pos(sbody(s)) == rd_tot(sbody(s))
 //@   assert_call[C01,C07] readProtoMessage : decodes_into_m: arg0 == sbody(s) && arg1 == s.codec && arg3 == m
 //@   modifies s.recvd, rd_pos(sbody(s)), external
@@ -145,4 +167,100 @@ package httpgrpc
 //@   assert_call[C13] getPeer : peer_from_reply_tls: arg0 == cs.baseUrl && arg1 == lastresult("http.RoundTripper.RoundTrip", 0).TLS
 //@   assert_call[C04] http.RoundTripper.RoundTrip : request_carries_stream_context: arg0 == transport
 //@   assert_call[C07,C01] readProtoMessage : trailer_size_is_negated_prefix: arg0 == reply_body && arg1 == cs.codec && sz < 0 && (sz > -2147483648 ==> arg2 == 0 - sz) && (sz == -2147483648 ==> arg2 < 0)
+//@   modifies everything
+
+// ---- C11: HTTP server gatekeeping (server.go, protocol_versions.go) ----
+//
+//@ func getUnaryCodec
+//@   ensures[C11] proto_only_for_its_content_type: media_type_of(contentType) == "application/x-protobuf" ==> result == registered_codec("proto")
+//@   ensures[C11] json_only_for_its_content_type: media_type_of(contentType) == "application/json" ==> result == registered_codec("json")
+//@   ensures[C11] anything_else_is_unsupported: media_type_of(contentType) != "application/x-protobuf" && media_type_of(contentType) != "application/json" ==> result == nil
+//@   modifies nothing
+//
+//@ func getStreamingCodec
+//@   ensures[C11] proto_only_for_the_stream_content_type: media_type_of(contentType) == "application/x-httpgrpc-proto+v1" ==> result == registered_codec("proto")
+//@   ensures[C11] anything_else_is_unsupported: media_type_of(contentType) != "application/x-httpgrpc-proto+v1" ==> result == nil
+//@   modifies nothing
+//
+//@ func writeError
+//@   ensures[C11,C14] exactly_one_error_reply: calls(http.Error) == 1
+//@   assert_call[C11,C14] http.Error : with_the_given_status: arg0 == w && arg2 == code
+//@   modifies everything
+//
+//@ func drainAndClose
+//@   ensures[C11] body_closed_once: calls("io.ReadCloser.Close") == 1
+//@   assert_call[C11] io.ReadCloser.Close : arg0 == r
+//@   modifies rd_pos(r), external
+//
+//@ func peerFromRequest
+//@   ensures[C13] result != nil && fresh(result)
+//@   ensures[C13] remote_address: typeis(result.Addr, "strAddr") && unbox(result.Addr, "strAddr") == r.RemoteAddr
+//@   ensures[C13] tls_reported: (r.TLS != nil) <==> (result.AuthInfo != nil)
+//@   ensures[C13] tls_state: r.TLS != nil ==> typeis(result.AuthInfo, "credentials.TLSInfo") && unbox(result.AuthInfo, "credentials.TLSInfo").State == *r.TLS
+//@   modifies nothing
+//
+// The handler installed for a unary method. H = the registered method handler.
+//@ define unary_reject_status(method, codec_ok, hdr_ok) = ite(method != "POST", 405, ite(!codec_ok, 415, ite(!hdr_ok, 400, 499)))
+//@ closure handleMethod.return
+//@   ensures[C11] handler_runs_at_most_once: calls("grpc.MethodDesc.Handler") <= 1
+//@   ensures[C11] handler_only_for_valid_requests: called("grpc.MethodDesc.Handler") ==> old(r.Method) == "POST" && called(getUnaryCodec) && lastresult(getUnaryCodec) != nil && called(contextFromHeaders) && lastresult(contextFromHeaders, 2) == nil && called("ioutil.ReadAll") && lastresult("ioutil.ReadAll", 1) == nil
+//@   ensures[C11] rejected_with_exactly_one_error_reply: !called("grpc.MethodDesc.Handler") ==> calls(writeError) == 1 && !called("http.ResponseWriter.Write")
+//@   ensures[C11] not_post_is_405_with_allow: old(r.Method) != "POST" ==> !called("grpc.MethodDesc.Handler") && lastarg(writeError, 1) == 405 && called("(http.Header).Set") && lastarg("(http.Header).Set", 1) == "Allow" && lastarg("(http.Header).Set", 2) == "POST" && lastarg("(http.Header).Set", 0) == resp_header(w)
+//@   ensures[C11] post_is_checked_for_media_type: old(r.Method) == "POST" ==> called(getUnaryCodec)
+//@   ensures[C11] unsupported_media_type_is_415: called(getUnaryCodec) && lastresult(getUnaryCodec) == nil ==> !called("grpc.MethodDesc.Handler") && lastarg(writeError, 1) == 415
+//@   ensures[C11] supported_media_type_checks_headers: called(getUnaryCodec) && lastresult(getUnaryCodec) != nil ==> called(contextFromHeaders)
+//@   ensures[C11] undecodable_headers_are_400: called(contextFromHeaders) && lastresult(contextFromHeaders, 2) != nil ==> !called("grpc.MethodDesc.Handler") && lastarg(writeError, 1) == 400
+//@   ensures[C11] unreadable_body_is_499: called("ioutil.ReadAll") && lastresult("ioutil.ReadAll", 1) != nil ==> !called("grpc.MethodDesc.Handler") && lastarg(writeError, 1) == 499
+//@   ensures[C11] decodable_headers_read_the_body: called(contextFromHeaders) && lastresult(contextFromHeaders, 2) == nil ==> called("ioutil.ReadAll")
+//@   ensures[C11] valid_request_reaches_the_handler: called("ioutil.ReadAll") && lastresult("ioutil.ReadAll", 1) == nil ==> calls("grpc.MethodDesc.Handler") == 1
+//@   assert_call[C11] getUnaryCodec : of_the_request_content_type: arg0 == hdr1(r.Header, "Content-Type")
+//@   assert_call[C11,C03,C09] contextFromHeaders : from_the_request_headers: arg1 == r.Header
+//@   assert_call[C11] writeError : to_this_response: arg0 == w
+//@   assert_call[C11,C16,C12] grpc.MethodDesc.Handler : registered_server_and_transport_interceptor: arg0 == svr && arg3 == unaryInt
+//@   assert_call[C11,C04,C10] grpc.MethodDesc.Handler : context_from_request_with_transport_stream: arg1 == lastresult(grpc.NewContextWithServerTransportStream) && lastarg(grpc.NewContextWithServerTransportStream, 0) == lastresult(contextFromHeaders, 0)
+//@   assert_call[C11,C01] grpc.MethodDesc.Handler : decoder_is_the_request_body: isfunc(arg2, "handleMethod.return.dec") && *binding(arg2, 0, "*encoding.Codec") == lastresult(getUnaryCodec) && *binding(arg2, 1, "*[]byte") == lastresult("ioutil.ReadAll", 0)
+//@   assert_call[C13] peer.NewContext : peer_of_the_request: arg1 == lastresult(peerFromRequest)
+//@   ensures[C03] handler_headers_and_trailers_copied: called("grpc.MethodDesc.Handler") ==> calls(toHeaders) == 2
+//@   ensures[C02,C14] failure_goes_to_the_error_renderer_once: called("grpc.MethodDesc.Handler") && lastresult("grpc.MethodDesc.Handler", 1) != nil ==> calls("var:errHandler") == 1 && !called("http.ResponseWriter.Write") && !called(writeError)
+//@   ensures[C02] success_writes_the_response_once: called("grpc.MethodDesc.Handler") && lastresult("grpc.MethodDesc.Handler", 1) == nil ==> !called("var:errHandler") && ((lastresult("encoding.Codec.Marshal", 1) != nil ==> calls(writeError) == 1 && lastarg(writeError, 1) == 500 && !called("http.ResponseWriter.Write")) && (lastresult("encoding.Codec.Marshal", 1) == nil ==> calls("http.ResponseWriter.Write") == 1 && !called(writeError) && lastarg("http.ResponseWriter.Write", 1) == lastresult("encoding.Codec.Marshal", 0)))
+//@   assert_call[C02,C14] var:errHandler : with_request_context_and_nonzero_code: arg0 == req_ctx(r) && arg2 == w && status_code(arg1) != 0
+//@   assert_call[C02] encoding.Codec.Marshal : same_codec_as_the_request: arg0 == lastresult(getUnaryCodec)
+//@   ensures[C11] request_body_drained_and_closed: calls(drainAndClose) == 1
+//@   modifies everything
+//
+//@ closure handleMethod.return.dec
+//@   ensures[C11,C01] decodes_with_the_request_codec: calls("encoding.Codec.Unmarshal") == 1
+//@   assert_call[C11,C01] encoding.Codec.Unmarshal : request_bytes_into_the_handlers_message: arg0 == codec && arg1 == req && arg2 == msg
+//@   ensures[C11] undecodable_request_is_invalid_argument: lastresult("encoding.Codec.Unmarshal") != nil ==> is_status_err(result) && err_status_code(result) == 3
+//@   ensures[C11] decodable_request_is_nil: lastresult("encoding.Codec.Unmarshal") == nil ==> result == nil
+//@   modifies external
+//
+// The handler installed for a streaming method.
+//@ define stream_handler_ran = called("grpc.StreamDesc.Handler") || called("var:streamInt")
+//@ closure handleStream.return
+//@   ensures[C11,C16] handler_or_interceptor_runs_at_most_once: calls("grpc.StreamDesc.Handler") + calls("var:streamInt") <= 1
+//@   ensures[C11] handler_only_for_valid_requests: stream_handler_ran ==> old(r.Method) == "POST" && called(getStreamingCodec) && lastresult(getStreamingCodec) != nil && called(contextFromHeaders) && lastresult(contextFromHeaders, 2) == nil
+//@   ensures[C11] rejected_with_exactly_one_error_reply: !stream_handler_ran ==> calls(writeError) == 1 && !called(writeProtoMessage)
+//@   ensures[C11] not_post_is_405_with_allow: old(r.Method) != "POST" ==> !stream_handler_ran && lastarg(writeError, 1) == 405 && called("(http.Header).Set") && lastarg("(http.Header).Set", 1) == "Allow" && lastarg("(http.Header).Set", 2) == "POST"
+//@   ensures[C11] post_is_checked_for_media_type: old(r.Method) == "POST" ==> called(getStreamingCodec)
+//@   ensures[C11] unsupported_media_type_is_415: called(getStreamingCodec) && lastresult(getStreamingCodec) == nil ==> !stream_handler_ran && lastarg(writeError, 1) == 415
+//@   ensures[C11] supported_media_type_checks_headers: called(getStreamingCodec) && lastresult(getStreamingCodec) != nil ==> called(contextFromHeaders)
+//@   ensures[C11] undecodable_headers_are_400: called(contextFromHeaders) && lastresult(contextFromHeaders, 2) != nil ==> !stream_handler_ran && lastarg(writeError, 1) == 400
+//@   ensures[C11] valid_request_reaches_the_handler: called(contextFromHeaders) && lastresult(contextFromHeaders, 2) == nil ==> calls("grpc.StreamDesc.Handler") + calls("var:streamInt") == 1
+//@   ensures[C16] transport_interceptor_takes_precedence: stream_handler_ran ==> (called("var:streamInt") <==> old(streamInt) != nil)
+//@   assert_call[C11] getStreamingCodec : of_the_request_content_type: arg0 == hdr1(r.Header, "Content-Type")
+//@   assert_call[C11,C03,C09] contextFromHeaders : from_the_request_headers: arg1 == r.Header
+//@   assert_call[C16,C12] var:streamInt : server_stream_info_and_registered_handler: arg0 == svr && typeis(arg1, "*serverStream") && unbox(arg1, "*serverStream") == str && arg2 == info && arg3 == desc.Handler
+//@   assert_call[C16,C12] grpc.StreamDesc.Handler : server_and_stream: arg0 == svr && typeis(arg1, "*serverStream") && unbox(arg1, "*serverStream") == str
+//@   assert_call[C11,C01] var:streamInt : stream_is_bound_to_this_exchange: str.r == r && str.w == w && str.codec == lastresult(getStreamingCodec) && str.respStream == desc.ClientStreams && !str.headersSent && !str.writeFailed && str.recvd == 0
+//@   assert_call[C11,C01] grpc.StreamDesc.Handler : stream_is_bound_to_this_exchange: str.r == r && str.w == w && str.codec == lastresult(getStreamingCodec) && str.respStream == desc.ClientStreams && !str.headersSent && !str.writeFailed && str.recvd == 0
+//@   assert_call[C13] peer.NewContext : peer_of_the_request: arg1 == lastresult(peerFromRequest)
+//@   ensures[C11,C02] exactly_one_trailer_frame_unless_the_write_failed: stream_handler_ran && !str.writeFailed ==> calls(writeProtoMessage) == 1
+//@   ensures[C11] nothing_after_a_failed_write: stream_handler_ran && str.writeFailed ==> !called(writeProtoMessage)
+//@   assert_call[C11,C02] writeProtoMessage : is_the_final_frame_of_this_reply: arg0 == w && arg1 == lastresult(getStreamingCodec) && arg3 && typeis(arg2, "*HttpTrailer") && unbox(arg2, "*HttpTrailer") == &tr
+//@   assert_call[C02] writeProtoMessage : success_has_code_zero: err == nil ==> tr.Code == 0
+//@   assert_call[C02] writeProtoMessage : failure_has_nonzero_code: err != nil ==> tr.Code != 0
+//@   assert_call[C02] writeProtoMessage : failure_carries_the_handlers_status: err != nil && is_status_err(err) && 0 < err_status_code(err) && err_status_code(err) <= 2147483647 ==> tr.Code == err_status_code(err) && tr.Message == err_status_msg(err) && tr.Details == err_status_details(err)
+//@   assert_call[C03] writeProtoMessage : trailer_metadata_is_what_the_handler_set: tr.Metadata == lastresult(asTrailerProto) && lastarg(asTrailerProto, 0) == lastresult("metadata.Join") && lastarg("metadata.Join", 0) == str.tr
+//@   ensures[C11] request_body_drained_and_closed: calls(drainAndClose) == 1
 //@   modifies everything
